@@ -1,6 +1,101 @@
-(* placeholder until the proof files land; replaced by the real property theorems *)
-From TK Require Import FibHeap_Model.
-From Coq Require Import List ZArith. Import ListNotations. Local Open Scope Z_scope.
-Example fh_smoke : exists h outs, run (empty_heap 8 4) [Insert 0 5; Insert 1 3; ExtractMin] = Ok (h, outs).
-Proof. eexists; eexists; vm_compute; reflexivity. Qed.
-Print Assumptions fh_smoke.
+(* Properties_C16.v — property C16: the Fibonacci heap is a correct indexed min-priority queue
+   under every history.  Only statements; every proof is `exact <lemma>`.
+
+   Model: FibHeap_Model.v (executable, pointer order of fibonacci_heap.hpp; `dn` = size of A[]
+   is a parameter read from the real constructor by the correspondence run).
+   Spec:  the association-list map of FibHeap_Model.v (spec_insert / spec_decrease /
+   spec_extract_ok) and its executable acceptance test FibHeap_SpecExec.spec_run_b, which the
+   C16 check also runs on the outputs of the real heap. *)
+From Coq Require Import List ZArith.
+From TK Require Import FibHeap_Model FibHeap_Dn FibHeap_SpecExec FibHeap_Proof_Basics
+  FibHeap_Proof_Degree FibHeap_Proof_Decrease FibHeap_Proof_Extract FibHeap_Proof_Main
+  FibHeap_Proof_Refuted.
+Import ListNotations.
+Local Open Scope Z_scope.
+
+(* T1 refinement: for every capacity, every size dn of A[] and every operation list, a history
+   that completes ends in a state satisfying the invariant (distinct in-range indices, heap
+   order, min_root minimal, counters exact, degree invariant) and every output (extract_min's
+   (index,key) or -1, get_num_nodes, empty) is one the finite-map specification allows. *)
+Theorem fh_refines_map : forall cap dn ops h' xs, 0 <= cap ->
+  run (empty_heap cap dn) ops = Ok (h', xs) ->
+  Inv h' /\ spec_run_b cap [] ops xs 0 = None.
+Proof. exact FibHeap_Proof_Main.fh_refines_map. Qed.
+Print Assumptions fh_refines_map.
+
+(* what an accepted extract_min answer means: the returned index is stored with exactly that
+   key, the key is minimal among the stored ones, and only that index is removed *)
+Theorem fh_extract_accept_sound : forall m r m1, NoDup (map fst m) -> spec_extract_b m r = Some m1 ->
+  spec_extract_ok m r m1.
+Proof. exact FibHeap_Proof_Main.spec_extract_b_sound. Qed.
+Print Assumptions fh_extract_accept_sound.
+
+(* one step, from any state related to a spec map (not only from the empty heap) *)
+Theorem fh_step : forall h m o, 0 <= h_cap h -> R h m ->
+  match step h o with
+  | Ok (h', x) => h_cap h' = h_cap h /\ h_dn h' = h_dn h /\
+                  exists m', spec_step_b (h_cap h) m o x = Some m' /\ R h' m'
+  | OOB d s => s = h_dn h /\ (h_dn h <= d)%nat /\ (Z.of_nat (fib (d + 2)) < h_cap h)
+  | OutOfFuel => False
+  end.
+Proof. exact FibHeap_Proof_Main.step_spec. Qed.
+Print Assumptions fh_step.
+
+(* guards: inserting a stored or out-of-range index, decreasing an absent index or to a larger
+   key leave the whole heap state (not only its abstraction) unchanged *)
+Theorem fh_guards_noop : forall h i k, Inv h ->
+  ((h_cap h <= i \/ i < 0 \/ (exists k0, a_get i (abs h) = Some k0)) -> insert i k h = h) /\
+  ((h_cap h <= i \/ i < 0 \/ a_get i (abs h) = None \/ (exists k0, a_get i (abs h) = Some k0 /\ k0 < k)) ->
+   decrease_key i k h = h).
+Proof. exact FibHeap_Proof_Main.fh_guards_noop. Qed.
+Print Assumptions fh_guards_noop.
+
+(* T2 size bound: a well-formed tree of rank r has at least fib (r+2) nodes *)
+Theorem fh_size_fib : forall t, wf t -> (fib (t_rank t + 2) <= tree_size t)%nat.
+Proof. exact FibHeap_Proof_Degree.size_fib. Qed.
+Print Assumptions fh_size_fib.
+
+(* T3 memory safety of A[]: the only out-of-range access the model can make is A[d] with
+   dn <= d < dn_req cap; so none at all once dn >= dn_req cap = least r with fib (r+2) > cap *)
+Theorem fh_oob_only_below_req : forall cap dn ops d s, 0 <= cap ->
+  run (empty_heap cap dn) ops = OOB d s -> s = dn /\ (dn <= d < dn_req cap)%nat.
+Proof. exact FibHeap_Proof_Main.fh_oob_only_below_req. Qed.
+Print Assumptions fh_oob_only_below_req.
+
+Theorem fh_no_oob : forall cap dn ops, 0 <= cap -> (dn_req cap <= dn)%nat ->
+  exists h' xs, run (empty_heap cap dn) ops = Ok (h', xs).
+Proof. exact FibHeap_Proof_Main.fh_no_oob. Qed.
+Print Assumptions fh_no_oob.
+
+Theorem dn_req_least : forall cap,
+  (cap < Z.of_nat (fib (dn_req cap + 2)))%Z /\
+  (forall r, (r < dn_req cap)%nat -> (Z.of_nat (fib (r + 2)) <= cap)%Z).
+Proof. exact FibHeap_Proof_Degree.dn_req_spec. Qed.
+Print Assumptions dn_req_least.
+
+(* T4 the constructor as it is in /repo now (integer Fibonacci loop, commit 5c47b41): every
+   history completes — never OOB, never out of fuel *)
+Theorem fh_fixed_no_oob : forall cap ops, 0 <= cap ->
+  exists h' xs, run (empty_heap cap (dn_fixed cap)) ops = Ok (h', xs).
+Proof. exact FibHeap_Proof_Main.fh_fixed_no_oob. Qed.
+Print Assumptions fh_fixed_no_oob.
+
+(* T5 regression theorems about the OLD constructor Dn = 1 + floor(log2 cap): it is below the
+   bound from capacity 8 on, and a concrete history at capacity 31 leaves A[] *)
+Theorem fh_log2_dn_below_req : forall cap, (8 <= cap)%Z -> (dn_shipped cap < dn_req cap)%nat.
+Proof. exact FibHeap_Proof_Degree.dn_shipped_lt_req. Qed.
+Print Assumptions fh_log2_dn_below_req.
+
+Theorem fh_log2_dn_refuted : exists cap ops d s, 0 <= cap /\ run (empty_heap cap (dn_shipped cap)) ops = OOB d s.
+Proof. exact FibHeap_Proof_Refuted.log2_dn_refuted. Qed.
+Print Assumptions fh_log2_dn_refuted.
+
+(* non-vacuity: a non-trivial history at capacity 8 completes, with cuts, cascading cuts and
+   consolidation, and satisfies the hypotheses of the theorems above *)
+Example fh_nonvacuous : exists h xs,
+  run (empty_heap 8 (dn_fixed 8))
+      [Insert 0 5; Insert 1 3; Insert 2 9; Insert 3 7; Insert 4 8; Insert 5 6; Insert 6 4; ExtractMin;
+       Decrease 2 1; Decrease 4 0; ExtractMin; Insert 7 2; Insert 7 1; Decrease 9 0; ExtractMin; ExtractMin]
+  = Ok (h, xs) /\ h_num_nodes h = 4 /\ (1 < length (h_roots h) + forest_size (h_roots h))%nat.
+Proof. eexists; eexists; vm_compute; repeat split; auto with arith. Qed.
+Print Assumptions fh_nonvacuous.
